@@ -17,6 +17,21 @@ def main():
     prop = a.prop.upper()
     mod = importlib.import_module("harness.%s" % prop.lower())
     ctx = common.Ctx(prop, a.tier, seed, a.replay)
+    limit = float(os.environ.get("VERIF_CHECK_TIMEOUT", "1500" if a.tier == "quick" else "14400"))
+
+    def watchdog():
+        # the whole check hangs (e.g. the code under test loops where no per-case limit applies):
+        # report it as a broken obligation rather than hanging the caller
+        ctx.broke("check-timeout", "the check did not finish within %.0fs" % limit)
+        try:
+            ctx.finish("check timed out before completing", ["see replay"], level="proof")
+        finally:
+            os._exit(1)
+
+    import threading
+    t = threading.Timer(limit, watchdog)
+    t.daemon = True
+    t.start()
     try:
         rc = mod.run(ctx)
     except Exception:
